@@ -44,7 +44,7 @@ func (g *gen) funcDecl(f *ast.File, name string) *ast.FuncDecl {
 	return nil
 }
 
-const header = "(* GENERATED on every check run by `verifh facts` from the current /repo sources - do not edit. *)\nFrom Coq Require Import List String ZArith.\nImport ListNotations.\nOpen Scope string_scope.\n"
+const header = "(* GENERATED on every check run by `verifh facts` from the current /repo sources - do not edit. *)\nFrom Coq Require Import List String Ascii ZArith.\nImport ListNotations.\nOpen Scope string_scope.\n"
 
 // CoqString renders a Go string as a Coq string literal (bytes; `"` doubled).
 func CoqString(s string) string {
@@ -84,6 +84,7 @@ func Run(repo, out string) (Facts, []string) {
 	g := &gen{repo: repo, out: out, facts: Facts{}, fset: token.NewFileSet()}
 	os.MkdirAll(out, 0o755)
 	g.cli()
+	g.peg()
 	keys := make([]string, 0, len(g.facts))
 	for k := range g.facts {
 		keys = append(keys, k)
